@@ -380,7 +380,7 @@ fn native_struct() -> NativeStruct {
         unit: (),
     }
 }
-pub const NATIVE_COUNT: u8 = 10;
+pub const NATIVE_COUNT: u8 = 11;
 /// JSON value that native Rust value #n must serialise to
 pub fn native_json(n: u8) -> Value {
     use serde_json::json;
@@ -394,7 +394,9 @@ pub fn native_json(n: u8) -> Value {
         6 => json!({"name": "gr\u{00fc}\u{00df} \u{1d11e}", "n": -7, "ratio": 0.25, "inner": {"id": 9, "tags": ["a", ""], "opt": null}, "unit": null}),
         7 => json!("borrowed \u{2603}"),
         8 => json!(["x", 3]),
-        _ => json!({"k": [1, 2]}),
+        9 => json!({"k": [1, 2]}),
+        // 0.1f32: serialised with the shortest f32 representation, i.e. the JSON number 0.1
+        _ => serde_json::from_str("0.1").unwrap(),
     }
 }
 
@@ -461,11 +463,12 @@ pub fn put_claim<'a, S: ClaimSink<'a>>(sink: &mut S, spec: &'a ClaimSpec) -> Res
                 6 => sink.put(CustomClaim::try_from((key, native_struct())).map_err(ctor_err)?),
                 7 => sink.put(CustomClaim::try_from((key, "borrowed \u{2603}")).map_err(ctor_err)?),
                 8 => sink.put(CustomClaim::try_from((spec.key.clone(), ("x", 3u8))).map_err(ctor_err)?),
-                _ => {
+                9 => {
                     let mut m = std::collections::BTreeMap::new();
                     m.insert("k", vec![1, 2]);
                     sink.put(CustomClaim::try_from((key, m)).map_err(ctor_err)?)
                 }
+                _ => sink.put(CustomClaim::try_from((key, 0.1f32)).map_err(ctor_err)?),
             }
             Ok(())
         }
@@ -651,6 +654,8 @@ pub enum POp {
     Assertion(String),
     /// parse(tokens[i], keys[j])
     Parse(usize, usize),
+    /// move the frozen clock (hook H2) to this instant (ns since the epoch, as text) before the next call
+    Clock(String),
 }
 
 #[derive(Clone, Debug, PartialEq, Serialize, Deserialize)]
@@ -867,6 +872,11 @@ macro_rules! parser_history {
                             PEvent::Unsupported
                         }
                     }
+                    POp::Clock(ns) => {
+                        let t: i128 = ns.parse().unwrap_or(0);
+                        set_clock(time::OffsetDateTime::from_unix_timestamp_nanos(t).ok());
+                        PEvent::Applied
+                    }
                     POp::Parse(ti, ki) => {
                         let _ = take_calls();
                         let out = match &keys[*ki] {
@@ -954,6 +964,33 @@ macro_rules! local_proto {
                     Ok(Ok(m)) => Out::Ok(m),
                     Ok(Err(e)) => Out::Err(class_core(&e)),
                     Err(p) => Out::Panic(p),
+                }
+            }
+
+            /// the same `Paseto::builder()` object used for two consecutive try_encrypt calls
+            pub fn core_issue_twice(key: &[u8], seed: &[u8], msg: &str, footer: Option<&str>, assertion: Option<&str>) -> Vec<Out<String>> {
+                sym_key!($V, key, k, vec![Out::Err(ErrClass::Harness("symmetric key must be 32 bytes".into()))]);
+                let r = guard(|| {
+                    let mut b = Paseto::<$V, Local>::builder();
+                    b.set_payload(Payload::from(msg));
+                    if let Some(f) = footer {
+                        b.set_footer(Footer::from(f));
+                    }
+                    set_ia!($ia, b, assertion);
+                    let first = local_proto!(@encrypt $m, $V, b, k, seed);
+                    let second = local_proto!(@encrypt $m, $V, b, k, seed);
+                    vec![first, second]
+                });
+                match r {
+                    Ok(v) => v
+                        .into_iter()
+                        .map(|o| match o {
+                            Some(Ok(t)) => Out::Ok(t),
+                            Some(Err(e)) => Out::Err(class_core(&e)),
+                            None => Out::Err(ErrClass::Harness("nonce seed of unsupported length".into())),
+                        })
+                        .collect(),
+                    Err(p) => vec![Out::Panic(p)],
                 }
             }
 
@@ -1045,6 +1082,32 @@ macro_rules! public_proto {
                 }
             }
 
+            /// the same `Paseto::builder()` object used for two consecutive try_sign calls
+            pub fn core_issue_twice(key: &[u8], _seed: &[u8], msg: &str, footer: Option<&str>, assertion: Option<&str>) -> Vec<Out<String>> {
+                priv_key!($kind, $V, key, k, vec![Out::Err(ErrClass::Harness("private key material of the wrong length".into()))]);
+                let r = guard(|| {
+                    let mut b = Paseto::<$V, Public>::builder();
+                    b.set_payload(Payload::from(msg));
+                    if let Some(f) = footer {
+                        b.set_footer(Footer::from(f));
+                    }
+                    set_ia!($ia, b, assertion);
+                    let first = b.try_sign(&k);
+                    let second = b.try_sign(&k);
+                    vec![first, second]
+                });
+                match r {
+                    Ok(v) => v
+                        .into_iter()
+                        .map(|o| match o {
+                            Ok(t) => Out::Ok(t),
+                            Err(e) => Out::Err(class_core(&e)),
+                        })
+                        .collect(),
+                    Err(p) => vec![Out::Panic(p)],
+                }
+            }
+
             type SignKey<'k> = PasetoAsymmetricPrivateKey<'k, $V, Public>;
             type VerKey<'k> = PasetoAsymmetricPublicKey<'k, $V, Public>;
             history_fns!($V, Public, $ia, try_sign, SignKey<'_>);
@@ -1117,6 +1180,11 @@ pub fn core_issue(p: Proto, key: &[u8], seed: &[u8], msg: &str, footer: Option<&
 /// Core layer: `Paseto::<V,P>::try_decrypt/try_verify`. `key` = symmetric / public key material.
 pub fn core_present(p: Proto, key: &[u8], token: &str, footer: Option<&str>, assertion: Option<&str>) -> Out<String> {
     dispatch!(p, core_present(key, token, footer, assertion))
+}
+
+/// Core layer: one `Paseto::builder()` object issuing two tokens in a row.
+pub fn core_issue_twice(p: Proto, key: &[u8], seed: &[u8], msg: &str, footer: Option<&str>, assertion: Option<&str>) -> Vec<Out<String>> {
+    dispatch!(p, core_issue_twice(key, seed, msg, footer, assertion))
 }
 
 pub fn build_history(p: Proto, layer: Layer, key: &[u8], ops: &[BOp]) -> Vec<BEvent> {
